@@ -215,6 +215,13 @@ def call_sequences(ctx, name, make_pool, calls, run, modules, depth, mutations=(
                                 for nm in v.dtype.names:
                                     if v.dtype[nm].kind in "iuf":
                                         v[nm] = v[nm] * 2 + 1
+                                # ... and renames the columns of ITS table in place (as esutil.io does for upper=True);
+                                # a dtype object shared with an argument is the caller's own and left alone
+                                if not any(isinstance(a, np.ndarray) and a.dtype is v.dtype for a in pool.values()):
+                                    try:
+                                        v.dtype.names = tuple("E_" + nm.upper() for nm in v.dtype.names)
+                                    except Exception:
+                                        pass
                             elif v.dtype.kind in "iuf":
                                 v[...] = v * 2 + 1
                 continue
